@@ -112,6 +112,23 @@ static void blk_encrypt(void) {
 }
 /* the optional shared-info fields of the three encrypting message kinds, every pair of lengths from a small set (absent, 1, 16, 200 octets; the two
    fields of different sizes in particular): the message must still round-trip for every recipient, and the shared infos come back as supplied */
+/* signed messages that carry CRLs (0, 1, 2 of them) for 1..NP signers; signed-and-enveloped likewise: own message verifies, content and the CRLs come back as supplied */
+#include <gmssl/x509_crl.h>
+static void blk_sign_crls(void) {
+	if (!vh_block_begin("sign-with-crls")) return; static uint8_t crl[2][700]; size_t crll[2] = { 0, 0 }; uint8_t nm[128]; size_t nl = 0; if (make_name(nm, &nl, "CA") != 1) vh_harness_error("name");
+	for (int i = 0; i < 2; i++) { uint8_t rev[128], *rp = rev; size_t rvl = 0; uint8_t ser[2] = { 0x11, (uint8_t)(i + 1) }; x509_revoked_cert_to_der(ser, 2, VENV_NOW - 500, NULL, 0, &rp, &rvl); uint8_t ex[64]; size_t el = 0; x509_crl_exts_add_crl_number(ex, &el, sizeof ex, X509_non_critical, i + 1); uint8_t *p = crl[i]; venv_reset(9100 + i);
+		if (x509_crl_sign_to_der(X509_version_v2, OID_sm2sign_with_sm3, nm, nl, VENV_NOW - 100, VENV_NOW + 86400, rev, rvl, ex, el, &CK[8], SM2_DEFAULT_ID, SM2_DEFAULT_ID_LENGTH, &p, &crll[i]) != 1) vh_harness_error("crl"); }
+	static uint8_t both[1400]; memcpy(both, crl[0], crll[0]); memcpy(both + crll[0], crl[1], crll[1]);
+	for (int ns = 1; ns <= NP; ns++) for (int nc = 0; nc <= 2; nc++) for (int kind = 0; kind < 2; kind++) { if (!vh_next()) continue; CMS_CERTS_AND_KEY sg[NP]; for (int i = 0; i < ns; i++) { sg[i].certs = SCERT[i]; sg[i].certs_len = SCL[i]; sg[i].sign_key = &SKEY[i][0]; } size_t n = 40, ml = 0, cll = nc == 0 ? 0 : nc == 1 ? crll[0] : crll[0] + crll[1]; const uint8_t *cl_ = nc ? both : NULL; venv_reset(9200 + ns * 10 + nc * 2 + kind); char key[160]; static const char *KN[] = { "sign", "sign-and-envelop" };
+		int r = kind == 0 ? cms_sign(MSG, &ml, sg, ns, OID_cms_data, CONTENT, n, cl_, cll) : cms_sign_and_envelop(MSG, &ml, sg, ns, RCERT[0], RCL[0], OID_sm4_cbc, SK, 16, IV, 16, OID_cms_data, CONTENT, n, cl_, cll, NULL, 0, NULL, 0); size_t kk[3] = { (size_t)ns, (size_t)nc, (size_t)kind }; vh_eval(vh_hash(kk, sizeof kk, 51));
+		if (r != 1) { snprintf(key, sizeof key, "C16:sign-with-crls:%s:refused", KN[kind]); vh_viol(key, "\"signers\":%d,\"crls\":%d,\"ret\":%d", ns, nc, r); continue; }
+		int ct = -1; const uint8_t *c = NULL, *certs, *crls = NULL, *sis, *ri, *s1, *s2; size_t cl = 0, certl, gcl = 0, sil, ril, s1l, s2l, ol = 0; memset(OUT, 0xEE, n + 32);
+		r = kind == 0 ? cms_verify(MSG, ml, NULL, 0, NULL, 0, &ct, &c, &cl, &certs, &certl, &crls, &gcl, &sis, &sil) : cms_deenvelop_and_verify(MSG, ml, &RKEY[0][0], RCERT[0], RCL[0], NULL, 0, NULL, 0, &ct, OUT, &ol, &ri, &ril, &sis, &sil, &certs, &certl, &crls, &gcl, &s1, &s1l, &s2, &s2l); vh_eval(vh_hash(kk, sizeof kk, 52));
+		if (r != 1) { snprintf(key, sizeof key, "C16:sign-with-crls:%s:own-message-does-not-verify", KN[kind]); vh_viol(key, "\"signers\":%d,\"crls\":%d,\"ret\":%d", ns, nc, r); continue; }
+		if (kind == 0 ? !content_matches(ct, c, cl, CONTENT, n) : (ol != n || memcmp(OUT, CONTENT, n))) { snprintf(key, sizeof key, "C16:sign-with-crls:%s:content-differs", KN[kind]); vh_viol(key, "\"signers\":%d,\"crls\":%d", ns, nc); }
+		if (gcl != cll || (cll && memcmp(crls, both, cll))) { snprintf(key, sizeof key, "C16:sign-with-crls:%s:crls-differ-from-the-supplied-ones", KN[kind]); vh_viol(key, "\"signers\":%d,\"crls\":%d,\"supplied_len\":%zu,\"returned_len\":%zu", ns, nc, cll, gcl); }
+		vh_sample("{\"block\":\"sign-with-crls\",\"kind\":\"%s\",\"signers\":%d,\"crls\":%d,\"msglen\":%zu}", KN[kind], ns, nc, ml); }
+}
 static void blk_shared_info(void) {
 	if (!vh_block_begin("shared-info")) return; static const size_t SL[] = { 0, 1, 16, 200 }; static uint8_t S1[200], S2[200]; for (int i = 0; i < 200; i++) { S1[i] = (uint8_t)(0x51 + i); S2[i] = (uint8_t)(0xa2 - i); }
 	for (int kind = 0; kind < 3; kind++) for (int a = 0; a < 4; a++) for (int b = 0; b < 4; b++) { if (!vh_next()) continue; size_t n = 33, ml = 0, l1 = SL[a], l2 = SL[b]; const uint8_t *p1 = l1 ? S1 : NULL, *p2 = l2 ? S2 : NULL; static const char *KN[] = { "encrypt", "envelop", "sign-and-envelop" }; char key[160]; int r; venv_reset(8100 + kind * 16 + a * 4 + b);
@@ -194,5 +211,5 @@ static void blk_lookalike_signers(void) {
 		/* one signer's signature replaced by the other's must not verify: swap the two sign keys */
 		CMS_CERTS_AND_KEY sw[2] = { { cert[a], cl[a], &CK[b] }, { cert[b], cl[b], &CK[a] } }; ml = 0; venv_reset(9700 + c * 2 + order); if (cms_sign(MSG, &ml, sw, 2, OID_cms_data, CONTENT, 33, NULL, 0) == 1) { r = cms_verify(MSG, ml, NULL, 0, NULL, 0, &ct, &cc, &ccl, &certs, &certl, &crls, &crll, &sis, &sil); vh_eval(vh_mix(9800 + c * 2 + order)); if (r == 1) { snprintf(key, sizeof key, "C16:sign-lookalike:%s:signatures-by-each-others-keys-verify", LK[c].name); vh_viol(key, "\"order\":%d", order); } } }
 }
-static void body(void) { blk_sign(); blk_lookalike_signers(); blk_envelop(); blk_lookalike(); blk_encrypt(); blk_shared_info(); blk_sign_envelop(); }
+static void body(void) { blk_sign(); blk_lookalike_signers(); blk_envelop(); blk_lookalike(); blk_encrypt(); blk_shared_info(); blk_sign_crls(); blk_sign_envelop(); }
 int main(int argc, char **argv) { vh_init(argc, argv); if (!freopen("/dev/null", "w", stderr)) {} setup(); vh_guarded("C16", body, vh_thorough ? 1200 : 120); return vh_finish(); }
